@@ -1,1 +1,35 @@
-//! witnesses for c15 (filled in below)
+//! C15: the representation of compact calendars is not reachable from outside the crate.
+
+/// The bitmap cannot be forged.
+/// ```compile_fail,E0603
+/// let _m = compact_calendar::CompactMonth(7);
+/// ```
+/// Twin:
+/// ```no_run
+/// let _m = compact_calendar::CompactMonth::default();
+/// ```
+pub struct MonthBitmapIsPrivate;
+
+/// The year window cannot be read or replaced.
+/// ```compile_fail,E0616
+/// let mut c = compact_calendar::CompactCalendar::default();
+/// c.calendar.clear();
+/// ```
+/// Twin:
+/// ```no_run
+/// let mut c = compact_calendar::CompactCalendar::default();
+/// c.count();
+/// ```
+pub struct WindowIsPrivate;
+
+/// `first_year` cannot be shifted.
+/// ```compile_fail,E0616
+/// let mut c = compact_calendar::CompactCalendar::default();
+/// c.first_year = 12;
+/// ```
+/// Twin:
+/// ```no_run
+/// let mut c = compact_calendar::CompactCalendar::default();
+/// c = compact_calendar::CompactCalendar::default();
+/// ```
+pub struct FirstYearIsPrivate;
